@@ -1,4 +1,4 @@
-CONSTANTS MaxScript = 2 MaxN = 3 Dev = {}
+CONSTANTS MaxScript = 2 MaxPause = 0 MaxN = 3 Dev = {}
 INIT AdvInit
 NEXT CaseNext
 INVARIANT EmitCase
